@@ -16,7 +16,6 @@ Lemma K_rb_mask_inc a b : rb_mask_inc a b = a && b. Proof. reflexivity. Qed.
 Lemma K_sb_mask_inc a b : sb_mask_inc a b = a && b. Proof. reflexivity. Qed.
 Lemma K_sb_mask_sky a b : sb_mask_sky a b = a && b. Proof. reflexivity. Qed.
 Lemma K_sb_batch_size : (0 < sb_batch_size)%Z. Proof. reflexivity. Qed.
-Lemma K_sb_use_batches n bs : sb_use_batches n bs = (n >? bs)%Z. Proof. reflexivity. Qed.
 Lemma K_sb_n_batches n bs : (0 < bs)%Z ->
   ((sb_n_batches n bs - 1) * bs < n <= sb_n_batches n bs * bs)%Z.
 Proof.
@@ -382,3 +381,998 @@ Proof.
   destruct (take_nat_ok evs (spec_orig f ns (length evs)) (spec_orig_lt _ _ _)) as (ev' & E1 & F).
   exists ev'. rewrite E1. cbn [bind]. split; [reflexivity|exact F].
 Qed.
+
+(* ------------------------------------------------------------------ *)
+(* SpatialBox: filling mask_ra in batches of bs sources equals the
+   unbatched broadcast, for every number of sources and every bs > 0   *)
+
+Lemma py_norm_idx_in n i : (0 <= i <= n)%Z -> py_norm_idx n i = i.
+Proof. intros H. unfold py_norm_idx. destruct (Z.ltb_spec i 0); lia. Qed.
+
+Lemma set_rows_nat (acc new : bmat) a b :
+  a <= b -> b <= length acc -> length new = b - a ->
+  set_rows acc (Z.of_nat a) (Z.of_nat b) new = Ok (firstn a acc ++ new ++ skipn b acc).
+Proof.
+  intros H1 H2 H3. unfold set_rows, zlen.
+  rewrite !py_norm_idx_in by lia.
+  replace (Z.of_nat (length new) =? Z.max 0 (Z.of_nat b - Z.of_nat a))%Z with true
+    by (symmetry; apply Z.eqb_eq; lia).
+  cbn [negb]. rewrite Nat2Z.id.
+  replace (Z.to_nat (Z.of_nat a + Z.of_nat (length new))) with b by lia. reflexivity.
+Qed.
+
+Lemma py_slice_nat {A} (l : list A) a b : a <= b -> b <= length l ->
+  py_slice l (Z.of_nat a) (Z.of_nat b) = firstn (b - a) (skipn a l).
+Proof.
+  intros H1 H2. unfold py_slice, zlen. rewrite !py_norm_idx_in by lia.
+  rewrite Nat2Z.id. f_equal. lia.
+Qed.
+
+Lemma firstn_plus {A} (l : list A) i d : firstn (i + d) l = firstn i l ++ firstn d (skipn i l).
+Proof.
+  revert l; induction i as [|i IH]; intros l; [reflexivity|].
+  destruct l as [|x l]; cbn [Nat.add firstn skipn app].
+  - now rewrite firstn_nil.
+  - now rewrite IH.
+Qed.
+
+Lemma firstn_app_exact {A} (a b : list A) i : length a = i -> firstn i (a ++ b) = a.
+Proof.
+  intros <-. rewrite firstn_app, Nat.sub_diag, firstn_all. cbn [firstn]. apply app_nil_r.
+Qed.
+
+Lemma skipn_app_exact {A} (a b : list A) i d : length a = i -> skipn (i + d) (a ++ b) = skipn d b.
+Proof.
+  intros <-. rewrite skipn_app. rewrite skipn_all2 by lia. cbn [app]. f_equal. lia.
+Qed.
+
+Lemma skipn_repeat {A} (z : A) m d : skipn d (repeat z m) = repeat z (m - d).
+Proof.
+  revert d; induction m as [|m IH]; intros d; cbn [repeat].
+  - now rewrite skipn_nil.
+  - destruct d as [|d]; cbn [skipn Nat.sub repeat]; [reflexivity|apply IH].
+Qed.
+
+Section Batching.
+  Variable S : Type.
+  Variable rowf : S -> list bool.
+  Variable srcs : list S.
+  Variable ne : nat.
+
+  Let n := length srcs.
+  Let z := repeat false ne.
+  Definition brows (i : nat) : bmat := map rowf (firstn i srcs) ++ repeat z (n - i).
+
+  Lemma brows_len i : i <= n -> length (brows i) = n.
+  Proof.
+    intros H. unfold brows. rewrite app_length, map_length, firstn_length, repeat_length.
+    fold n. lia.
+  Qed.
+
+  Lemma brows_step i i' : i <= i' -> i' <= n ->
+    set_rows (brows i) (Z.of_nat i) (Z.of_nat i')
+             (map rowf (py_slice srcs (Z.of_nat i) (Z.of_nat i'))) = Ok (brows i').
+  Proof.
+    intros H1 H2. rewrite py_slice_nat by (fold n; lia).
+    assert (L : length (map rowf (firstn i srcs)) = i)
+      by (rewrite map_length, firstn_length; fold n; lia).
+    rewrite set_rows_nat; [|lia|rewrite brows_len; lia|].
+    2:{ rewrite map_length, firstn_length, skipn_length. fold n. lia. }
+    f_equal. unfold brows at 1 2.
+    rewrite firstn_app_exact by exact L.
+    replace i' with (i + (i' - i)) at 2 by lia.
+    rewrite skipn_app_exact by exact L. rewrite skipn_repeat.
+    unfold brows. replace i' with (i + (i' - i)) at 3 by lia.
+    rewrite firstn_plus, map_app, <- app_assoc. do 3 f_equal. lia.
+  Qed.
+
+  Variable bs : Z.
+  Hypothesis bs_pos : (0 < bs)%Z.
+  Let bsn := Z.to_nat bs.
+  Let nb := sb_n_batches (Z.of_nat n) bs.
+
+  Definition bstep (acc : res bmat) (bi : Z) : res bmat :=
+    do a <- acc; batch_step bs nb rowf srcs a bi.
+
+  Lemma bstep_mid i : (Z.of_nat i < nb - 1)%Z ->
+    bstep (Ok (brows (i * bsn))) (Z.of_nat i) = Ok (brows ((i + 1) * bsn)).
+  Proof.
+    intros H. pose proof (K_sb_n_batches (Z.of_nat n) bs bs_pos) as K. fold nb in K.
+    assert (Hb : bs = Z.of_nat bsn) by (unfold bsn; lia).
+    assert (Hle : (i + 1) * bsn <= n) by nia.
+    unfold bstep, batch_step. cbn [bind]. rewrite K_sb_is_last.
+    destruct (Z.eqb_spec (Z.of_nat i) (nb - 1)) as [E|_]; [lia|].
+    rewrite (proj1 (K_sb_lo _ _)), K_sb_hi.
+    replace (Z.of_nat i * bs)%Z with (Z.of_nat (i * bsn)) by nia.
+    replace ((Z.of_nat i + 1) * bs)%Z with (Z.of_nat ((i + 1) * bsn)) by nia.
+    apply brows_step; nia.
+  Qed.
+
+  Lemma bstep_last i : (Z.of_nat i = nb - 1)%Z ->
+    bstep (Ok (brows (i * bsn))) (Z.of_nat i) = Ok (brows n).
+  Proof.
+    intros H. pose proof (K_sb_n_batches (Z.of_nat n) bs bs_pos) as K. fold nb in K.
+    assert (Hb : bs = Z.of_nat bsn) by (unfold bsn; lia).
+    unfold bstep, batch_step. cbn [bind]. rewrite K_sb_is_last.
+    destruct (Z.eqb_spec (Z.of_nat i) (nb - 1)) as [_|E]; [|lia].
+    rewrite (proj2 (K_sb_lo _ _)). unfold zlen. fold n.
+    replace (Z.of_nat i * bs)%Z with (Z.of_nat (i * bsn)) by nia.
+    apply brows_step; nia.
+  Qed.
+
+  Lemma bfold_prefix i : (Z.of_nat i <= nb - 1)%Z ->
+    fold_left bstep (map Z.of_nat (seq 0 i)) (Ok (brows 0)) = Ok (brows (i * bsn)).
+  Proof.
+    induction i as [|i IH]; intros H; [reflexivity|].
+    rewrite seq_S, map_app, fold_left_app, IH by lia. cbn [Nat.add map fold_left].
+    rewrite bstep_mid by lia. do 2 f_equal. lia.
+  Qed.
+
+  Lemma fill_batches_spec : fill_batches bs rowf srcs ne = Ok (map rowf srcs).
+  Proof.
+    pose proof (K_sb_n_batches (Z.of_nat n) bs bs_pos) as K. fold nb in K.
+    unfold fill_batches. unfold zlen. fold n nb z bstep.
+    replace (repeat z n) with (brows 0)
+      by (unfold brows; cbn [firstn map app]; now rewrite Nat.sub_0_r).
+    destruct (Nat.eq_dec n 0) as [E0|Hn].
+    - assert (nb = 0%Z) as -> by nia. cbn [Z.to_nat seq map fold_left].
+      unfold brows. rewrite E0. cbn [Nat.sub repeat firstn map app].
+      unfold n in E0. apply length_zero_iff_nil in E0. now rewrite E0.
+    - assert (Hnb : (1 <= nb)%Z) by nia.
+      replace (Z.to_nat nb) with (Datatypes.S (Z.to_nat (nb - 1))) by lia.
+      rewrite seq_S, map_app, fold_left_app, bfold_prefix by lia.
+      cbn [Nat.add map fold_left]. rewrite bstep_last by lia.
+      f_equal. unfold brows. rewrite Nat.sub_diag. cbn [repeat]. rewrite app_nil_r.
+      unfold n. now rewrite firstn_all.
+  Qed.
+End Batching.
+
+(* ------------------------------------------------------------------ *)
+(* The incoming pair table                                             *)
+
+Lemma wrap_nat n i : i < n -> wrap n (Z.of_nat i) = Ok i.
+Proof.
+  intros H. unfold wrap.
+  destruct ((Z.of_nat i <? - Z.of_nat n)%Z || (Z.of_nat n <=? Z.of_nat i)%Z) eqn:E.
+  - apply orb_true_iff in E as [E|E]; [apply Z.ltb_lt in E | apply Z.leb_le in E]; lia.
+  - destruct (Z.ltb_spec (Z.of_nat i) 0); [lia|]. now rewrite Nat2Z.id.
+Qed.
+
+Lemma wrap_Z n i : (0 <= i < Z.of_nat n)%Z -> wrap n i = Ok (Z.to_nat i).
+Proof. intros H. rewrite <- (Z2Nat.id i) at 1 by lia. apply wrap_nat. lia. Qed.
+
+Lemma mapM_ok {A B} (f : A -> res B) (g : A -> B) l :
+  (forall x, In x l -> f x = Ok (g x)) -> mapM f l = Ok (map g l).
+Proof.
+  induction l as [|x l IH]; intros H; [reflexivity|].
+  cbn [mapM map]. rewrite H by now left. cbn [bind]. rewrite IH; [reflexivity|].
+  intros y Hy. apply H. now right.
+Qed.
+
+Lemma existsb_ext_in {A} (f g : A -> bool) l :
+  (forall x, In x l -> f x = g x) -> existsb f l = existsb g l.
+Proof.
+  induction l as [|x l IH]; intros H; [reflexivity|]. cbn [existsb].
+  rewrite H by now left. rewrite IH; [reflexivity|]. intros y Hy. apply H. now right.
+Qed.
+
+Lemma existsb_map {A B} (f : B -> bool) (g : A -> B) l :
+  existsb f (map g l) = existsb (fun x => f (g x)) l.
+Proof. induction l as [|x l IH]; [reflexivity|]. cbn [map existsb]. now rewrite IH. Qed.
+
+Definition tbl_rng (ns ne : nat) (t : tbl) : Prop :=
+  forall p, In p t -> (0 <= fst p < Z.of_nat ns)%Z /\ (0 <= snd p < Z.of_nat ne)%Z.
+
+Lemma inc_has_In t k j : inc_has (Some t) k j = true <-> In (Z.of_nat k, Z.of_nat j) t.
+Proof.
+  cbn [inc_has]. rewrite existsb_exists. split.
+  - intros ((a, b) & Hin & H). cbn [fst snd] in H. apply andb_true_iff in H as (H1 & H2).
+    apply Z.eqb_eq in H1, H2. now subst.
+  - intros H. exists (Z.of_nat k, Z.of_nat j). split; [assumption|]. cbn [fst snd].
+    now rewrite !Z.eqb_refl.
+Qed.
+
+Lemma tbl_mask_ok ns ne t :
+  tbl_rng ns ne t -> tbl_mask ns ne t = Ok (tab ns ne (inc_has (Some t))).
+Proof.
+  intros R. unfold tbl_mask.
+  rewrite (mapM_ok _ (fun p => (Z.to_nat (fst p), Z.to_nat (snd p)))).
+  2:{ intros p Hp. destruct (R p Hp) as (R1 & R2). rewrite K_csm_row, K_csm_col.
+      rewrite !wrap_Z by assumption. reflexivity. }
+  cbn [bind]. f_equal. apply tab_ext. intros k j Hk Hj. cbn [inc_has].
+  rewrite existsb_map. apply existsb_ext_in. intros p Hp. destruct (R p Hp) as (R1 & R2).
+  cbn [fst snd]. f_equal.
+  - destruct (Nat.eqb_spec (Z.to_nat (fst p)) k), (Z.eqb_spec (fst p) (Z.of_nat k)); try reflexivity; lia.
+  - destruct (Nat.eqb_spec (Z.to_nat (snd p)) j), (Z.eqb_spec (snd p) (Z.of_nat j)); try reflexivity; lia.
+Qed.
+
+(* ------------------------------------------------------------------ *)
+(* More list facts                                                     *)
+
+Lemma cidx_and {S E} (c1 c2 : S -> E -> bool) srcs evs k j :
+  cidx (fun s e => c1 s e && c2 s e) srcs evs k j
+  = cidx c1 srcs evs k j && cidx c2 srcs evs k j.
+Proof. unfold cidx. destruct (nth_error srcs k), (nth_error evs j); reflexivity. Qed.
+
+Lemma pblock_cons ci k a x l :
+  pblock ci k a (x :: l) = (if ci k x then [(k, a)] else []) ++ pblock ci k (S a) l.
+Proof. reflexivity. Qed.
+
+Lemma pblock_true k a n : pblock (fun _ _ => true) k a (seq a n) = map (pair k) (seq a n).
+Proof.
+  revert a; induction n as [|n IH]; intros a; [reflexivity|].
+  cbn [seq]. rewrite pblock_cons, IH. reflexivity.
+Qed.
+
+Lemma full_tbl_spec ns ne :
+  full_tbl ns ne = map zz (spec_pairs (fun _ _ => true) ns (seq 0 ne)).
+Proof.
+  unfold full_tbl. rewrite spec_pairs_blocks. generalize (seq 0 ns). intros ks.
+  induction ks as [|k ks IH]; [reflexivity|]. cbn [flat_map]. rewrite map_app, <- IH. f_equal.
+  rewrite pblock_true, map_map. reflexivity.
+Qed.
+
+Lemma filter_all {A} (g : A -> bool) l : (forall x, In x l -> g x = true) -> filter g l = l.
+Proof.
+  induction l as [|x l IH]; intros H; [reflexivity|]. cbn [filter].
+  rewrite H by now left. f_equal. apply IH. intros y Hy. apply H. now right.
+Qed.
+
+Lemma spec_orig_all ci ns ne :
+  (forall j, j < ne -> exists k, k < ns /\ ci k j = true) -> spec_orig ci ns ne = seq 0 ne.
+Proof.
+  intros H. unfold spec_orig. apply filter_all. intros j Hj. apply in_seq in Hj.
+  destruct (H j) as (k & Hk & Hc); [lia|]. apply existsb_exists. exists k. split; [apply in_seq; lia|assumption].
+Qed.
+
+Lemma nth_error_seq a n i : i < n -> nth_error (seq a n) i = Some (a + i).
+Proof.
+  revert a i; induction n as [|n IH]; intros a i H; [lia|].
+  destruct i as [|i]; cbn [seq nth_error]; [f_equal; lia|]. rewrite IH by lia. f_equal; lia.
+Qed.
+
+Lemma F2_seq {A} (l0 l : list A) a :
+  (forall i e, nth_error l i = Some e -> nth_error l0 (a + i) = Some e) ->
+  Forall2 (fun e j => nth_error l0 j = Some e) l (seq a (length l)).
+Proof.
+  revert a; induction l as [|x l IH]; intros a H; cbn [length seq]; constructor.
+  - rewrite <- (Nat.add_0_r a). now apply H.
+  - apply IH. intros i e He. replace (S a + i) with (a + S i) by lia. now apply H.
+Qed.
+
+Lemma evs_at_all {E} (evs : list E) : evs_at evs evs (seq 0 (length evs)).
+Proof. apply F2_seq. intros i e H. exact H. Qed.
+
+Lemma F2_nth {A B} (P : A -> B -> Prop) l l' b y :
+  Forall2 P l l' -> nth_error l' b = Some y -> exists x, nth_error l b = Some x /\ P x y.
+Proof.
+  intros F. revert b. induction F as [|x0 y0 l l' H F IH]; intros b Hb.
+  - destruct b; discriminate.
+  - destruct b as [|b]; cbn [nth_error] in *.
+    + inversion Hb; subst. now exists x0.
+    + now apply IH.
+Qed.
+
+Lemma F2_map_r {A B} (P : A -> B -> Prop) (f : A -> B) l :
+  Forall (fun x => P x (f x)) l -> Forall2 P l (map f l).
+Proof. induction 1; cbn [map]; constructor; assumption. Qed.
+
+Lemma F2_map_r2 {A B C} (Q : A -> C -> Prop) (f : B -> C) l l' :
+  Forall2 (fun x y => Q x (f y)) l l' -> Forall2 Q l (map f l').
+Proof. induction 1; cbn [map]; constructor; assumption. Qed.
+
+Lemma F2_length {A B} (P : A -> B -> Prop) l l' : Forall2 P l l' -> length l = length l'.
+Proof. induction 1; cbn [length]; congruence. Qed.
+
+Lemma filter_map_comm {A B} (f : A -> B) (g : B -> bool) l :
+  map f (filter (fun x => g (f x)) l) = filter g (map f l).
+Proof.
+  induction l as [|x l IH]; [reflexivity|]. cbn [filter map].
+  destruct (g (f x)); cbn [map]; now rewrite IH.
+Qed.
+
+Lemma map_nth_id (l : list nat) : map (fun b => nth b l 0) (seq 0 (length l)) = l.
+Proof.
+  symmetry. rewrite <- (map_id l) at 1.
+  apply (map_seq_nth (fun x => x) (fun b => nth b l 0) l 0).
+  intros i x H. cbn [Nat.add]. symmetry. now apply nth_error_nth.
+Qed.
+
+Lemma filter_filter_sub {A} (g h : A -> bool) l :
+  (forall x, In x l -> g x = true -> h x = true) -> filter g (filter h l) = filter g l.
+Proof.
+  induction l as [|x l IH]; intros H; [reflexivity|]. cbn [filter].
+  assert (IH' : filter g (filter h l) = filter g l) by (apply IH; intros y Hy; apply H; now right).
+  destruct (h x) eqn:Eh; cbn [filter].
+  - now rewrite IH'.
+  - destruct (g x) eqn:Eg; [|assumption]. rewrite H in Eh; [discriminate|now left|assumption].
+Qed.
+
+Lemma existsb_false {A} (f : A -> bool) l : (forall x, In x l -> f x = false) -> existsb f l = false.
+Proof.
+  induction l as [|x l IH]; intros H; [reflexivity|]. cbn [existsb].
+  rewrite H by now left. apply IH. intros y Hy. apply H. now right.
+Qed.
+
+Lemma existsb_combine_map {A B} (F : A -> B -> bool) (g : A -> B) t :
+  existsb (fun pv => F (fst pv) (snd pv)) (combine t (map g t)) = existsb (fun p => F p (g p)) t.
+Proof. induction t as [|p t IH]; [reflexivity|]. cbn [map combine existsb fst snd]. now rewrite IH. Qed.
+
+(* ------------------------------------------------------------------ *)
+(* What a method hands on satisfies the precondition of the next one   *)
+
+Lemma out_tbl_ok ci ns ne :
+  tbl_ok ns (length (spec_orig ci ns ne)) (map zz (spec_pairs ci ns (spec_orig ci ns ne))).
+Proof.
+  split; [apply spec_pairs_sorted|]. split.
+  - intros p Hp. apply in_map_iff in Hp as ((k, b) & <- & Hin).
+    apply spec_pairs_In in Hin as (Hk & j & Hj & _).
+    assert (b < length (spec_orig ci ns ne)) by (apply nth_error_Some; congruence).
+    unfold zz; cbn [fst snd]. lia.
+  - intros b Hb. destruct (nth_error (spec_orig ci ns ne) b) as [j|] eqn:Ej;
+      [|apply nth_error_None in Ej; lia].
+    pose proof (nth_error_In _ _ Ej) as Hin. apply spec_orig_In in Hin as (_ & k & Hk & Hc).
+    exists k. apply in_map_zz, spec_pairs_In. split; [assumption|]. now exists j.
+Qed.
+
+Lemma full_tbl_ok ns ne : 0 < ns -> tbl_ok ns ne (full_tbl ns ne).
+Proof.
+  intros H. rewrite full_tbl_spec.
+  pose proof (out_tbl_ok (fun _ _ => true) ns ne) as T.
+  rewrite spec_orig_all in T; [|intros j _; exists 0; split; [assumption|reflexivity]].
+  now rewrite seq_length in T.
+Qed.
+
+Lemma full_tbl_In ns ne k j : k < ns -> j < ne -> In (Z.of_nat k, Z.of_nat j) (full_tbl ns ne).
+Proof.
+  intros Hk Hj. rewrite full_tbl_spec. apply in_map_zz, spec_pairs_In. split; [assumption|].
+  exists j. split; [now apply nth_error_seq|reflexivity].
+Qed.
+
+Lemma tbl_ok_rng ns ne t : tbl_ok ns ne t -> tbl_rng ns ne t.
+Proof. intros (_ & R & _). exact R. Qed.
+
+(* ------------------------------------------------------------------ *)
+(* Every method: the result is the specification for the pair criterion
+   cix m inc = (pair listed in the incoming table) && (documented criterion) *)
+
+Definition run_ok {S E} (m : meth S E) (srcs : list S) (evs : list E) (inc : option tbl) : Prop :=
+  let ns := length srcs in
+  let ci := cix m inc srcs evs in
+  let orig := spec_orig ci ns (length evs) in
+  exists ev',
+    run m srcs evs inc
+    = Ok {| s_events := ev'; s_tbl := map zz (spec_pairs ci ns orig); s_orig := map Z.of_nat orig |}
+    /\ evs_at evs ev' orig.
+
+Lemma finish_ci {E} (evs : list E) ns (M : bmat) f ci :
+  M = tab ns (length evs) f ->
+  (forall k j, k < ns -> j < length evs -> f k j = ci k j) ->
+  let orig := spec_orig ci ns (length evs) in
+  exists ev',
+    finish evs M
+    = Ok {| s_events := ev'; s_tbl := map zz (spec_pairs ci ns orig); s_orig := map Z.of_nat orig |}
+    /\ evs_at evs ev' orig.
+Proof.
+  intros -> H. rewrite (tab_ext _ _ _ _ H). apply finish_tab.
+Qed.
+
+Section RunSpec.
+  Variables S E : Type.
+  Variable srcs : list S.
+  Let ns := length srcs.
+  Hypothesis ns_pos : 0 < ns.
+
+  Lemma and_inc_spec andf (evs : list E) c inc :
+    (forall a b, andf a b = a && b) ->
+    inc_ok ns (length evs) inc ->
+    and_inc andf (tab ns (length evs) (cidx c srcs evs)) ns (length evs) inc
+    = Ok (tab ns (length evs) (fun k j => cidx c srcs evs k j && inc_has inc k j)).
+  Proof.
+    intros Hand Hinc. destruct inc as [t|]; cbn [and_inc].
+    - rewrite tbl_mask_ok by (apply tbl_ok_rng; exact Hinc). cbn [bind].
+      rewrite map2_tab. f_equal. apply tab_ext. intros k j _ _. apply Hand.
+    - f_equal. apply tab_ext. intros k j _ _. cbn [inc_has]. now rewrite andb_true_r.
+  Qed.
+
+  Lemma run_all (evs : list E) inc : inc_ok ns (length evs) inc -> run_ok MAll srcs evs inc.
+  Proof.
+    intros Hinc. unfold run_ok. fold ns. set (ci := cix MAll inc srcs evs).
+    assert (Hall : spec_orig ci ns (length evs) = seq 0 (length evs)).
+    { apply spec_orig_all. intros j Hj. destruct inc as [t|].
+      - destruct Hinc as (_ & R & C). destruct (C j Hj) as (k & Hin).
+        destruct (R _ Hin) as (R1 & _). cbn [fst] in R1. exists k. split; [lia|].
+        unfold ci, cix. rewrite (proj2 (inc_has_In t k j) Hin). cbn [andb crit_of]. unfold cidx.
+        destruct (nth_error srcs k) eqn:Es; [|apply nth_error_None in Es; fold ns in Es; lia].
+        destruct (nth_error evs j) eqn:Ee; [reflexivity|apply nth_error_None in Ee; lia].
+      - exists 0. split; [assumption|]. unfold ci, cix. cbn [inc_has andb crit_of]. unfold cidx.
+        destruct (nth_error srcs 0) eqn:Es; [|apply nth_error_None in Es; fold ns in Es; lia].
+        destruct (nth_error evs j) eqn:Ee; [reflexivity|apply nth_error_None in Ee; lia]. }
+    rewrite Hall. exists evs. split; [|apply evs_at_all].
+    cbn [run]. fold ns. do 2 f_equal.
+    assert (Hci : forall k j, k < ns -> j < length evs -> ci k j = inc_has inc k j).
+    { intros k j Hk Hj. unfold ci, cix. cbn [crit_of]. unfold cidx.
+      destruct (nth_error srcs k) eqn:Es; [|apply nth_error_None in Es; fold ns in Es; lia].
+      destruct (nth_error evs j) eqn:Ee; [apply andb_true_r|apply nth_error_None in Ee; lia]. }
+    assert (Fl : Forall (fun j => j < length evs) (seq 0 (length evs)))
+      by (apply Forall_forall; intros j Hj; apply in_seq in Hj; lia).
+    rewrite (spec_pairs_ext ci (inc_has inc) ns (length evs) _ Fl Hci).
+    destruct inc as [t|].
+    - (* the given table is returned as is: it is the sorted list of its members *)
+      destruct Hinc as (Sd & R & C).
+      apply (SS_unique lexlt lexlt_irr lexlt_tr); [assumption|apply spec_pairs_sorted|].
+      intros (zk, zj). split.
+      + intros Hin. destruct (R _ Hin) as (R1 & R2). cbn [fst snd] in R1, R2.
+        rewrite <- (Z2Nat.id zk), <- (Z2Nat.id zj) by lia. apply in_map_zz, spec_pairs_In.
+        split; [lia|]. exists (Z.to_nat zj). split; [apply nth_error_seq; lia|].
+        apply inc_has_In. now rewrite !Z2Nat.id by lia.
+      + intros Hin. apply in_map_iff in Hin as ((k, b) & Ez & Hin). unfold zz in Ez; cbn [fst snd] in Ez.
+        inversion Ez; subst. apply spec_pairs_In in Hin as (Hk & j & Hj & Hc).
+        assert (b < length evs).
+        { rewrite <- (seq_length (length evs) 0). apply nth_error_Some. congruence. }
+        rewrite nth_error_seq in Hj by assumption. inversion Hj; subst. now apply inc_has_In.
+    - cbn [inc_has]. apply full_tbl_spec.
+  Qed.
+
+  Lemma run_band (evs : list E) kd c inc :
+    inc_ok ns (length evs) inc -> run_ok (MBand kd c) srcs evs inc.
+  Proof.
+    intros Hinc. unfold run_ok. cbn [run]. rewrite mat_tab. fold ns.
+    rewrite (and_inc_spec (inc_kernel kd) evs c inc); [|destruct kd; reflexivity|assumption].
+    cbn [bind]. eapply finish_ci; [reflexivity|].
+    intros k j _ _. unfold cix. cbn [crit_of]. apply andb_comm.
+  Qed.
+
+  Lemma run_box (evs : list E) bs cra crab cdec inc :
+    (0 < bs)%Z /\ (forall s e, crab s e = cra s e) ->
+    inc_ok ns (length evs) inc -> run_ok (MBox bs cra crab cdec) srcs evs inc.
+  Proof.
+    intros (Hbs & Hcp) Hinc. unfold run_ok. cbn [run]. fold ns.
+    (* whichever path the code takes, mask_ra is the broadcast of the RA criterion *)
+    assert (Hra : (if sb_use_batches (Z.of_nat ns) bs
+                   then fill_batches bs (fun s => map (crab s) evs) srcs (length evs)
+                   else Ok (mat cra srcs evs)) = Ok (mat cra srcs evs)).
+    { destruct (sb_use_batches (Z.of_nat ns) bs); [|reflexivity].
+      rewrite fill_batches_spec by assumption. f_equal. unfold mat.
+      apply map_ext; intro s. apply map_ext; intro e. apply Hcp. }
+    rewrite Hra. cbn [bind]. rewrite !mat_tab, map2_tab. fold ns.
+    assert (Hsky : tab ns (length evs)
+                       (fun k j => sb_mask_sky (cidx cra srcs evs k j) (cidx cdec srcs evs k j))
+                   = tab ns (length evs) (cidx (fun s e => cra s e && cdec s e) srcs evs)).
+    { apply tab_ext. intros k j _ _. now rewrite K_sb_mask_sky, cidx_and. }
+    rewrite Hsky.
+    rewrite (and_inc_spec sb_mask_inc evs _ inc); [|reflexivity|assumption].
+    cbn [bind]. eapply finish_ci; [reflexivity|].
+    intros k j _ _. unfold cix. cbn [crit_of]. apply andb_comm.
+  Qed.
+
+  Lemma run_psi (evs : list E) c inc :
+    ns = 1 -> inc_ok ns (length evs) inc -> run_ok (MPsi c) srcs evs inc.
+  Proof.
+    intros H1 Hinc. unfold run_ok. cbn [run]. fold ns. rewrite H1. cbn [Nat.eqb negb].
+    eapply finish_ci with (f := cidx (fun _ e => c e) srcs evs).
+    - unfold tab. cbn [seq map]. f_equal.
+      apply (map_seq_nth c (cidx (fun _ e => c e) srcs evs 0) evs 0).
+      intros j e He. cbn [Nat.add]. unfold cidx. rewrite He.
+      destruct (nth_error srcs 0) eqn:Es; [reflexivity|apply nth_error_None in Es; fold ns in Es; lia].
+    - intros k j Hk Hj. unfold cix. cbn [crit_of]. fold ns.
+      assert (Hi : inc_has inc k j = true).
+      { destruct inc as [t|]; [|reflexivity]. destruct Hinc as (_ & R & C).
+        destruct (C j Hj) as (k' & Hin). destruct (R _ Hin) as (R1 & _). cbn [fst] in R1.
+        apply inc_has_In. replace k with k' by lia. exact Hin. }
+      now rewrite Hi.
+  Qed.
+
+  Lemma take_wrap_rng {A} (l : list A) i :
+    (0 <= i < Z.of_nat (length l))%Z ->
+    take_wrap l i = match nth_error l (Z.to_nat i) with Some a => Ok a | None => Err IndexError end.
+  Proof. intros H. unfold take_wrap. rewrite wrap_Z by assumption. reflexivity. Qed.
+
+  Lemma run_pair (evs : list E) c inc :
+    inc_ok ns (length evs) inc -> run_ok (MPair c) srcs evs inc.
+  Proof.
+    intros Hinc. unfold run_ok. cbn [run]. fold ns.
+    set (t := match inc with None => full_tbl ns (length evs) | Some t => t end).
+    assert (Ht : tbl_ok ns (length evs) t)
+      by (unfold t; destruct inc; [exact Hinc|now apply full_tbl_ok]).
+    pose proof (tbl_ok_rng _ _ _ Ht) as R.
+    set (g := fun p : Z * Z => cidx c srcs evs (Z.to_nat (fst p)) (Z.to_nat (snd p))).
+    rewrite (mapM_ok _ g).
+    2:{ intros p Hp. destruct (R p Hp) as (R1 & R2). rewrite !(proj1 (K_ae_idx _)).
+        rewrite ?(proj1 (proj2 (proj2 (K_ae_idx _)))).
+        rewrite !take_wrap_rng by (fold ns; assumption).
+        unfold g, cidx.
+        destruct (nth_error srcs (Z.to_nat (fst p))) eqn:Es;
+          [|apply nth_error_None in Es; fold ns in Es; lia].
+        destruct (nth_error evs (Z.to_nat (snd p))) eqn:Ee;
+          [|apply nth_error_None in Ee; lia].
+        reflexivity. }
+    cbn [bind]. rewrite existsb_false.
+    2:{ intros p Hp. destruct (R p Hp) as (R1 & R2).
+        destruct (Z.ltb_spec (fst p) 0), (Z.ltb_spec (snd p) 0); try lia; try reflexivity. }
+    eapply finish_ci; [reflexivity|]. intros k j Hk Hj. cbn beta.
+    rewrite (existsb_combine_map
+               (fun (p : Z * Z) (v : bool) => (fst p =? Z.of_nat k)%Z && (snd p =? Z.of_nat j)%Z && v) g t).
+    unfold cix. cbn [crit_of].
+    assert (Hi : inc_has inc k j = inc_has (Some t) k j).
+    { unfold t. destruct inc; [reflexivity|]. transitivity true; [reflexivity|]. symmetry.
+      apply inc_has_In. now apply full_tbl_In. }
+    rewrite Hi. apply eq_true_iff_eq. rewrite existsb_exists, andb_true_iff, inc_has_In. split.
+    - intros ((zk, zj) & Hin & H). cbn [fst snd] in H.
+      apply andb_true_iff in H as (H & Hg). apply andb_true_iff in H as (H1 & H2).
+      apply Z.eqb_eq in H1, H2. subst. unfold g in Hg. cbn [fst snd] in Hg.
+      rewrite !Nat2Z.id in Hg. now split.
+    - intros (Hin & Hc). exists (Z.of_nat k, Z.of_nat j). split; [assumption|].
+      cbn [fst snd]. rewrite !Z.eqb_refl. unfold g. cbn [fst snd andb]. now rewrite !Nat2Z.id.
+  Qed.
+End RunSpec.
+
+(* ------------------------------------------------------------------ *)
+(* Intersection: chaining two methods                                  *)
+
+Lemma take_wrap_map_nat (l : list nat) b :
+  b < length l -> take_wrap (map Z.of_nat l) (Z.of_nat b) = Ok (Z.of_nat (nth b l 0)).
+Proof.
+  intros H. unfold take_wrap. rewrite map_length, wrap_nat by assumption. cbn [bind].
+  rewrite (map_nth_error Z.of_nat b l (nth_error_nth' l 0 H)). reflexivity.
+Qed.
+
+Section Chain.
+  Variables S E : Type.
+  Variable srcs : list S.
+  Let ns := length srcs.
+
+  Lemma run_and (a b : meth S E) (evs : list E) inc :
+    run_ok a srcs evs inc ->
+    (forall ev1 t1, inc_ok ns (length ev1) (Some t1) -> run_ok b srcs ev1 (Some t1)) ->
+    run_ok (MAnd a b) srcs evs inc.
+  Proof.
+    intros Ha Hb. unfold run_ok in Ha. fold ns in Ha.
+    set (ci1 := cix a inc srcs evs) in Ha. set (orig1 := spec_orig ci1 ns (length evs)) in Ha.
+    destruct Ha as (ev1 & E1 & F1).
+    pose proof (F2_length _ _ _ F1) as L1.
+    set (t1 := map zz (spec_pairs ci1 ns orig1)) in *.
+    assert (Ht1 : inc_ok ns (length ev1) (Some t1)).
+    { cbn [inc_ok]. rewrite L1. apply out_tbl_ok. }
+    specialize (Hb ev1 t1 Ht1). unfold run_ok in Hb. fold ns in Hb.
+    set (ci2 := cix b (Some t1) srcs ev1) in Hb. set (orig2 := spec_orig ci2 ns (length ev1)) in Hb.
+    destruct Hb as (ev2 & E2 & F2).
+    unfold run_ok. fold ns. set (ci := cix (MAnd a b) inc srcs evs).
+    (* pointwise: the criterion of the intersection *)
+    assert (Hci : forall k j, ci k j = ci1 k j && cidx (crit_of b ns) srcs evs k j).
+    { intros k j. unfold ci, ci1, cix. cbn [crit_of]. fold ns. now rewrite cidx_and, andb_assoc. }
+    (* key fact: the second method's criterion at position b of the first
+       selection is the intersection criterion at the original event *)
+    assert (Key : forall k p j, k < ns -> nth_error orig1 p = Some j -> ci2 k p = ci k j).
+    { intros k p j Hk Hp. rewrite Hci. unfold ci2, cix. fold ns. f_equal.
+      - apply eq_true_iff_eq. rewrite inc_has_In. unfold t1. rewrite in_map_zz, spec_pairs_In. split.
+        + intros (_ & j' & Hj' & Hc). congruence.
+        + intros Hc. split; [assumption|]. now exists j.
+      - destruct (F2_nth _ _ _ _ _ F1 Hp) as (e & He1 & He). unfold cidx. now rewrite He1, He. }
+    assert (Hlt : forall p, p < length ev1 -> nth_error orig1 p = Some (nth p orig1 0))
+      by (intros p Hp; apply nth_error_nth'; lia).
+    set (L := map (fun p => nth p orig1 0) orig2).
+    assert (HL : L = spec_orig ci ns (length evs)).
+    { unfold L, orig2, spec_orig.
+      rewrite (filter_ext_in _ (fun p => existsb (fun k => ci k (nth p orig1 0)) (seq 0 ns))).
+      2:{ intros p Hp. apply in_seq in Hp. apply existsb_ext_in. intros k Hk. apply in_seq in Hk.
+          apply Key; [lia|apply Hlt; lia]. }
+      rewrite (filter_map_comm (fun p => nth p orig1 0)
+                 (fun j => existsb (fun k => ci k j) (seq 0 ns))).
+      rewrite L1, map_nth_id. unfold orig1, spec_orig. apply filter_filter_sub.
+      intros j _ Hj. apply existsb_exists in Hj as (k & Hk & Hc). apply existsb_exists.
+      exists k. split; [assumption|]. rewrite Hci in Hc. now apply andb_true_iff in Hc as (Hc & _). }
+    assert (Hlt2 : Forall (fun p => p < length ev1) orig2) by apply spec_orig_lt.
+    exists ev2. split.
+    - cbn [run]. rewrite E1. cbn [bind s_events s_tbl s_orig]. fold t1. rewrite E2.
+      cbn [bind s_events s_tbl s_orig].
+      rewrite (mapM_ok _ (fun z => Z.of_nat (nth (Z.to_nat z) orig1 0))).
+      2:{ intros z Hz. apply in_map_iff in Hz as (p & <- & Hp). rewrite (proj2 (K_ix_org _ 0%Z)).
+          rewrite Forall_forall in Hlt2. rewrite take_wrap_map_nat by (rewrite <- L1; now apply Hlt2).
+          now rewrite Nat2Z.id. }
+      cbn [bind]. f_equal. rewrite <- HL. f_equal.
+      + f_equal. apply spec_pairs_ext2. unfold L. apply F2_map_r.
+        eapply Forall_impl; [|exact Hlt2]. cbn beta. intros p Hp k Hk. apply Key; [assumption|now apply Hlt].
+      + unfold L. rewrite !map_map. apply map_ext. intros p. now rewrite Nat2Z.id.
+    - rewrite <- HL. unfold L, evs_at. apply F2_map_r2. eapply F2_impl; [|exact F2]. cbn beta.
+      intros e p Hp.
+      assert (p < length ev1) by (apply nth_error_Some; congruence).
+      destruct (F2_nth _ _ _ _ _ F1 (Hlt p H)) as (e' & He1 & He). congruence.
+  Qed.
+
+  Hypothesis ns_pos : 0 < ns.
+
+  Theorem run_spec (m : meth S E) : forall (evs : list E) inc,
+    wf_meth m ns -> inc_ok ns (length evs) inc -> run_ok m srcs evs inc.
+  Proof.
+    induction m as [|kd c|bs cra crab cdec|c|c|a IHa b IHb]; intros evs inc Hwf Hinc.
+    - now apply run_all.
+    - now apply run_band.
+    - now apply run_box.
+    - now apply run_psi.
+    - now apply run_pair.
+    - destruct Hwf as (Wa & Wb). apply run_and; [now apply IHa|]. intros ev1 t1 H1. now apply IHb.
+  Qed.
+End Chain.
+
+(* ------------------------------------------------------------------ *)
+(* The property in the form stated in props/Prop_C05.v                 *)
+
+Lemma cidx_true {S E} (c : S -> E -> bool) srcs evs k j :
+  cidx c srcs evs k j = true <->
+  exists s e, nth_error srcs k = Some s /\ nth_error evs j = Some e /\ c s e = true.
+Proof.
+  unfold cidx. split.
+  - destruct (nth_error srcs k) as [s|]; [|discriminate].
+    destruct (nth_error evs j) as [e|]; [|discriminate]. intros H. now exists s, e.
+  - intros (s & e & -> & -> & H). exact H.
+Qed.
+
+(* consequences of "the result is the specification lists" *)
+Lemma spec_result {E} ci ns (evs ev' : list E) :
+  let orig := spec_orig ci ns (length evs) in
+  let t := map zz (spec_pairs ci ns orig) in
+  evs_at evs ev' orig ->
+  StronglySorted lexlt t
+  /\ (forall p, In p t -> (0 <= fst p < Z.of_nat ns)%Z /\ (0 <= snd p < Z.of_nat (length ev'))%Z)
+  /\ (forall k b, In (Z.of_nat k, Z.of_nat b) t <->
+        k < ns /\ exists j, nth_error orig b = Some j /\ ci k j = true)
+  /\ (forall b, b < length ev' -> exists k, In (Z.of_nat k, Z.of_nat b) t).
+Proof.
+  intros orig t F. pose proof (out_tbl_ok ci ns (length evs)) as (T1 & T2 & T3).
+  fold orig in T1, T2, T3. fold t in T1, T2, T3. rewrite <- (F2_length _ _ _ F) in T2, T3.
+  split; [exact T1|]. split; [exact T2|]. split; [|exact T3].
+  intros k b. unfold t. rewrite in_map_zz. apply spec_pairs_In.
+Qed.
+
+Theorem select_full {S E} (m : meth S E) (srcs : list S) (evs : list E) :
+  let ns := length srcs in
+  let c := cidx (crit_of m ns) srcs evs in
+  0 < ns -> wf_meth m ns ->
+  exists r orig,
+    run m srcs evs None = Ok r
+    /\ orig = filter (fun j => existsb (fun k => c k j) (seq 0 ns)) (seq 0 (length evs))
+    /\ s_orig r = map Z.of_nat orig
+    /\ Forall2 (fun e j => nth_error evs j = Some e) (s_events r) orig
+    /\ StronglySorted lexlt (s_tbl r)
+    /\ (forall p, In p (s_tbl r) ->
+          (0 <= fst p < Z.of_nat ns)%Z /\ (0 <= snd p < Z.of_nat (length (s_events r)))%Z)
+    /\ (forall k b, In (Z.of_nat k, Z.of_nat b) (s_tbl r) <->
+          k < ns /\ exists j, nth_error orig b = Some j /\ c k j = true)
+    /\ (forall b, b < length (s_events r) -> exists k, In (Z.of_nat k, Z.of_nat b) (s_tbl r)).
+Proof.
+  intros ns c Hns Hwf.
+  destruct (run_spec S E srcs Hns m evs None Hwf I) as (ev' & Er & F).
+  change (cix m None srcs evs) with c in Er, F. fold ns in Er, F.
+  eexists. exists (spec_orig c ns (length evs)). split; [exact Er|].
+  cbn [s_events s_tbl s_orig]. split; [reflexivity|]. split; [reflexivity|]. split; [exact F|].
+  apply (spec_result c ns evs ev' F).
+Qed.
+
+Theorem select_incoming {S E} (m : meth S E) (srcs : list S) (evs : list E) (t0 : tbl) :
+  let ns := length srcs in
+  let c := fun k j => inc_has (Some t0) k j && cidx (crit_of m ns) srcs evs k j in
+  0 < ns -> wf_meth m ns -> tbl_ok ns (length evs) t0 ->
+  exists r orig,
+    run m srcs evs (Some t0) = Ok r
+    /\ orig = filter (fun j => existsb (fun k => c k j) (seq 0 ns)) (seq 0 (length evs))
+    /\ s_orig r = map Z.of_nat orig
+    /\ Forall2 (fun e j => nth_error evs j = Some e) (s_events r) orig
+    /\ tbl_ok ns (length (s_events r)) (s_tbl r)
+    /\ (forall k b, In (Z.of_nat k, Z.of_nat b) (s_tbl r) <->
+          k < ns /\ exists j, nth_error orig b = Some j /\ c k j = true).
+Proof.
+  intros ns c Hns Hwf Ht.
+  destruct (run_spec S E srcs Hns m evs (Some t0) Hwf Ht) as (ev' & Er & F).
+  change (cix m (Some t0) srcs evs) with c in Er, F. fold ns in Er, F.
+  eexists. exists (spec_orig c ns (length evs)). split; [exact Er|].
+  cbn [s_events s_tbl s_orig]. split; [reflexivity|]. split; [reflexivity|]. split; [exact F|].
+  destruct (spec_result c ns evs ev' F) as (R1 & R2 & R3 & R4).
+  split; [|exact R3]. split; [exact R1|]. split; [exact R2|exact R4].
+Qed.
+
+(* chaining written out: both stages run, the second on the output of the
+   first; original indices compose; the pairs are those meeting both criteria *)
+Theorem chain_full {S E} (a b : meth S E) (srcs : list S) (evs : list E) :
+  let ns := length srcs in
+  0 < ns -> wf_meth a ns -> wf_meth b ns ->
+  exists r1 r2 r orig,
+    run a srcs evs None = Ok r1
+    /\ run b srcs (s_events r1) (Some (s_tbl r1)) = Ok r2
+    /\ run (MAnd a b) srcs evs None = Ok r
+    /\ s_events r = s_events r2 /\ s_tbl r = s_tbl r2
+    /\ Forall2 (fun o o2 => exists p, o2 = Z.of_nat p /\ nth_error (s_orig r1) p = Some o)
+               (s_orig r) (s_orig r2)
+    /\ s_orig r = map Z.of_nat orig
+    /\ orig = filter (fun j => existsb (fun k => cidx (crit_of a ns) srcs evs k j
+                                                && cidx (crit_of b ns) srcs evs k j) (seq 0 ns))
+                     (seq 0 (length evs))
+    /\ Forall2 (fun e j => nth_error evs j = Some e) (s_events r) orig
+    /\ (forall k p, In (Z.of_nat k, Z.of_nat p) (s_tbl r) <->
+          k < ns /\ exists j, nth_error orig p = Some j
+                              /\ cidx (crit_of a ns) srcs evs k j = true
+                              /\ cidx (crit_of b ns) srcs evs k j = true).
+Proof.
+  intros ns Hns Wa Wb.
+  destruct (select_full a srcs evs Hns Wa) as (r1 & o1 & E1 & Ho1 & So1 & F1 & T1 & Rg1 & In1 & Cv1).
+  assert (Ht1 : tbl_ok ns (length (s_events r1)) (s_tbl r1)) by (split; [exact T1|split; [exact Rg1|exact Cv1]]).
+  destruct (select_incoming b srcs (s_events r1) (s_tbl r1) Hns Wb Ht1)
+    as (r2 & o2 & E2 & Ho2 & So2 & F2 & T2 & In2).
+  destruct (select_full (MAnd a b) srcs evs Hns (conj Wa Wb))
+    as (r & o & Er & Ho & So & F & T & Rg & Inn & Cv).
+  exists r1, r2, r, o. split; [exact E1|]. split; [exact E2|]. split; [exact Er|].
+  (* unfold the intersection once to relate r with r1, r2 *)
+  pose proof Er as E'. cbn [run] in E'. fold ns in E1, E2. rewrite E1 in E'. cbn [bind] in E'.
+  rewrite E2 in E'. cbn [bind] in E'.
+  destruct (mapM (fun i => take_wrap (s_orig r1) (ix_org_idx0 i)) (s_orig r2)) as [org|] eqn:Eo;
+    [|discriminate]. cbn [bind] in E'. inversion E'; subst r. cbn [s_events s_tbl s_orig] in *.
+  split; [reflexivity|]. split; [reflexivity|]. split.
+  { clear - Eo So2 So1. rewrite So2 in *. clear So2. revert org Eo.
+    induction o2 as [|p o2 IH]; intros org Eo; cbn [map mapM] in Eo.
+    - inversion Eo. constructor.
+    - destruct (take_wrap (s_orig r1) (ix_org_idx0 (Z.of_nat p))) as [x|] eqn:Ex; [|discriminate].
+      cbn [bind] in Eo. destruct (mapM _ (map Z.of_nat o2)) as [xs|] eqn:Exs; [|discriminate].
+      cbn [bind] in Eo. inversion Eo; subst. cbn [map]. constructor; [|now apply IH].
+      exists p. split; [reflexivity|]. rewrite (proj2 (K_ix_org _ 0%Z)) in Ex.
+      unfold take_wrap in Ex. destruct (wrap (length (s_orig r1)) (Z.of_nat p)) as [q|] eqn:Eq; [|discriminate].
+      cbn [bind] in Ex. unfold wrap in Eq.
+      destruct ((Z.of_nat p <? - Z.of_nat (length (s_orig r1)))%Z || (Z.of_nat (length (s_orig r1)) <=? Z.of_nat p)%Z); [discriminate|].
+      destruct (Z.ltb_spec (Z.of_nat p) 0); [lia|]. inversion Eq; subst q. rewrite Nat2Z.id in Ex.
+      destruct (nth_error (s_orig r1) p); [now inversion Ex|discriminate]. }
+  split; [exact So|]. split.
+  { rewrite Ho. apply filter_ext. intros j. apply existsb_ext_in. intros k _. cbn [crit_of]. apply cidx_and. }
+  split; [exact F|].
+  intros k p. rewrite Inn. cbn [crit_of]. split; intros (Hk & j & Hj & Hc); (split; [exact Hk|]); exists j;
+    (split; [exact Hj|]); [rewrite cidx_and in Hc; now apply andb_true_iff in Hc
+                          |rewrite cidx_and; now apply andb_true_iff].
+Qed.
+
+Theorem box_batch_indep {S E} (bs bs' : Z) (cra cdec : S -> E -> bool) srcs evs inc :
+  (0 < bs)%Z -> (0 < bs')%Z ->
+  run (MBox bs cra cra cdec) srcs evs inc = run (MBox bs' cra cra cdec) srcs evs inc.
+Proof.
+  intros H H'. cbn [run].
+  assert (G : forall b, (0 < b)%Z ->
+     (if sb_use_batches (Z.of_nat (length srcs)) b
+      then fill_batches b (fun s => map (cra s) evs) srcs (length evs)
+      else Ok (mat cra srcs evs)) = Ok (mat cra srcs evs)).
+  { intros b Hb. destruct (sb_use_batches _ b); [|reflexivity]. now rewrite fill_batches_spec. }
+  now rewrite !G.
+Qed.
+
+(* ------------------------------------------------------------------ *)
+(* TrialDataManager.initialize_trial: selection, sort by the index field,
+   re-assignment of the event indices                                  *)
+Require Import Coq.Logic.FinFun.
+
+Lemma set_nth_length {A} (l : list A) k v : length (set_nth l k v) = length l.
+Proof.
+  revert k; induction l as [|x l IH]; intros k; [reflexivity|].
+  destruct k; cbn [set_nth length]; [reflexivity|now rewrite IH].
+Qed.
+
+Lemma set_nth_eq {A} (l : list A) k v : k < length l -> nth_error (set_nth l k v) k = Some v.
+Proof.
+  revert k; induction l as [|x l IH]; intros k H; cbn [length] in H; [lia|].
+  destruct k; cbn [set_nth nth_error]; [reflexivity|apply IH; lia].
+Qed.
+
+Lemma set_nth_neq {A} (l : list A) k q v : q <> k -> nth_error (set_nth l k v) q = nth_error l q.
+Proof.
+  revert k q; induction l as [|x l IH]; intros k q H; [reflexivity|].
+  destruct k, q; cbn [set_nth nth_error]; try reflexivity; [lia|apply IH; lia].
+Qed.
+
+Lemma scatter_spec n : forall (p : list Z) (acc : list (option Z)) (i : Z),
+  (forall x, In x p -> (0 <= x < Z.of_nat n)%Z) -> NoDup p -> length acc = n ->
+  exists inv, scatter n acc i p = Ok inv /\ length inv = n
+    /\ (forall d x, nth_error p d = Some x ->
+          nth_error inv (Z.to_nat x) = Some (Some (i + Z.of_nat d)%Z))
+    /\ (forall q, ~ In (Z.of_nat q) p -> nth_error inv q = nth_error acc q).
+Proof.
+  induction p as [|x r IH]; intros acc i Hr Hn Hl.
+  - exists acc. split; [reflexivity|]. split; [assumption|]. split; [|reflexivity].
+    intros d y Hd. destruct d; discriminate.
+  - inversion Hn as [|? ? Hx Hn']; subst. cbn [scatter]. rewrite K_tdm_inv_pos.
+    assert (Hxr : (0 <= x < Z.of_nat (length acc))%Z) by (apply Hr; now left).
+    rewrite wrap_Z by assumption. cbn [bind].
+    destruct (IH (set_nth acc (Z.to_nat x) (Some i)) (i + 1)%Z) as (inv & E & L & P1 & P2);
+      [intros y Hy; apply Hr; now right|assumption|apply set_nth_length|].
+    exists inv. split; [exact E|]. split; [exact L|]. split.
+    + intros d y Hd. destruct d as [|d]; cbn [nth_error] in Hd.
+      * inversion Hd; subst y. rewrite P2 by (rewrite Z2Nat.id by lia; exact Hx).
+        rewrite set_nth_eq by lia. do 2 f_equal. lia.
+      * rewrite (P1 d y Hd). do 2 f_equal. lia.
+    + intros q Hq. rewrite P2 by (intros H; apply Hq; now right).
+      apply set_nth_neq. intros ->. apply Hq. left. lia.
+Qed.
+
+Lemma mapM_F2 {A B} (f : A -> res B) (P : B -> A -> Prop) l :
+  (forall x, In x l -> exists y, f x = Ok y /\ P y x) ->
+  exists ys, mapM f l = Ok ys /\ Forall2 P ys l.
+Proof.
+  induction l as [|x l IH]; intros H.
+  - exists []. split; [reflexivity|constructor].
+  - destruct (H x (or_introl eq_refl)) as (y & Ey & Py).
+    destruct IH as (ys & Eys & F); [intros z Hz; apply H; now right|].
+    exists (y :: ys). cbn [mapM]. rewrite Ey. cbn [bind]. rewrite Eys. cbn [bind].
+    split; [reflexivity|now constructor].
+Qed.
+
+Lemma F2_In_l {A B} (P : A -> B -> Prop) l l' x :
+  Forall2 P l l' -> In x l -> exists y, In y l' /\ P x y.
+Proof.
+  induction 1 as [|a b l l' H F IH]; intros Hx; [contradiction|].
+  destruct Hx as [<-|Hx]; [exists b; split; [now left|assumption]|].
+  destruct (IH Hx) as (y & Hy & Py). exists y. split; [now right|assumption].
+Qed.
+
+Lemma F2_In_r {A B} (P : A -> B -> Prop) l l' y :
+  Forall2 P l l' -> In y l' -> exists x, In x l /\ P x y.
+Proof.
+  induction 1 as [|a b l l' H F IH]; intros Hy; [contradiction|].
+  destruct Hy as [<-|Hy]; [exists a; split; [now left|assumption]|].
+  destruct (IH Hy) as (x & Hx & Px). exists x. split; [now right|assumption].
+Qed.
+
+Lemma F2_NoDup {A B} (P : A -> B -> Prop) l l' :
+  Forall2 P l l' -> (forall x y y', P x y -> P x y' -> y = y') -> NoDup l' -> NoDup l.
+Proof.
+  intros F inj. induction F as [|a b l l' H F IH]; intros Hn; [constructor|].
+  inversion Hn as [|? ? Hb Hn']; subst. constructor; [|now apply IH].
+  intros Ha. destruct (F2_In_l _ _ _ _ F Ha) as (y & Hy & Py).
+  apply Hb. now rewrite (inj a b y H Py).
+Qed.
+
+Lemma perm_facts (p : list Z) n :
+  Permutation p (map Z.of_nat (seq 0 n)) ->
+  (forall x, In x p <-> (0 <= x < Z.of_nat n)%Z) /\ NoDup p /\ length p = n.
+Proof.
+  intros P. split; [|split].
+  - intros x. split.
+    + intros H. apply (Permutation_in _ P) in H. apply in_map_iff in H as (b & <- & Hb).
+      apply in_seq in Hb. lia.
+    + intros H. apply (Permutation_in _ (Permutation_sym P)). apply in_map_iff.
+      exists (Z.to_nat x). split; [lia|apply in_seq; lia].
+  - apply (Permutation_NoDup (Permutation_sym P)).
+    apply Injective_map_NoDup; [intros a b; apply Nat2Z.inj|apply seq_NoDup].
+  - rewrite (Permutation_length P), map_length. apply seq_length.
+Qed.
+
+Section TDM.
+  Variables S E : Type.
+  Variable argsort : list E -> list Z.
+  (* contract of np.argsort: the result is a permutation of 0..n-1 *)
+  Hypothesis argsort_perm :
+    forall l, Permutation (argsort l) (map Z.of_nat (seq 0 (length l))).
+  Variable srcs : list S.
+  Let ns := length srcs.
+  Hypothesis ns_pos : 0 < ns.
+
+  Lemma sorted_events (ev1 : list E) :
+    exists ev2, mapM (take_wrap ev1) (argsort ev1) = Ok ev2
+      /\ Forall2 (fun e z => nth_error ev1 (Z.to_nat z) = Some e) ev2 (argsort ev1).
+  Proof.
+    destruct (perm_facts _ _ (argsort_perm ev1)) as (Pin & _ & _).
+    apply mapM_F2. intros z Hz. apply Pin in Hz. rewrite take_wrap_rng by assumption.
+    destruct (nth_error ev1 (Z.to_nat z)) as [e|] eqn:Ee; [|apply nth_error_None in Ee; lia].
+    now exists e.
+  Qed.
+
+  Theorem tdm_sort_full (m : meth S E) (evs : list E) :
+    let c := cidx (crit_of m ns) srcs evs in
+    wf_meth m ns ->
+    exists r1 ev2 t2 orig2,
+      run m srcs evs None = Ok r1
+      /\ tdm_init argsort (Some m) srcs evs true = Ok (ev2, t2)
+      /\ Permutation orig2
+           (filter (fun j => existsb (fun k => c k j) (seq 0 ns)) (seq 0 (length evs)))
+      /\ Forall2 (fun e j => nth_error evs j = Some e) ev2 orig2
+      /\ Forall2 (fun e z => nth_error (s_events r1) (Z.to_nat z) = Some e) ev2 (argsort (s_events r1))
+      /\ map fst t2 = map fst (s_tbl r1)
+      /\ NoDup t2
+      /\ (forall q, In q t2 -> (0 <= fst q < Z.of_nat ns)%Z /\ (0 <= snd q < Z.of_nat (length ev2))%Z)
+      /\ (forall k b, In (Z.of_nat k, Z.of_nat b) t2 <->
+            k < ns /\ exists j, nth_error orig2 b = Some j /\ c k j = true).
+  Proof.
+    intros c Hwf.
+    destruct (select_full m srcs evs ns_pos Hwf)
+      as (r1 & o1 & E1 & Ho1 & So1 & F1 & T1 & Rg1 & In1 & Cv1).
+    fold ns in E1, Ho1, Rg1, In1. fold c in Ho1, In1.
+    set (ev1 := s_events r1) in *. set (t1 := s_tbl r1) in *.
+    set (p := argsort ev1).
+    destruct (perm_facts _ _ (argsort_perm ev1)) as (Pin & Pnd & Plen). fold p in Pin, Pnd, Plen.
+    destruct (sorted_events ev1) as (ev2 & Eev2 & Fev2). fold p in Eev2, Fev2.
+    pose proof (F2_length _ _ _ F1) as L1. fold ev1 in L1.
+    pose proof (F2_length _ _ _ Fev2) as L2.
+    destruct (scatter_spec (length p) p (repeat None (length p)) 0%Z)
+      as (inv & Einv & Linv & P1 & _);
+      [intros x Hx; apply Pin in Hx; lia|assumption|apply repeat_length|].
+    (* the re-assigned table *)
+    destruct (mapM_F2
+      (fun q : Z * Z => do v <- take_wrap inv (snd q);
+                        match v with
+                        | Some j => Ok (tdm_src_keep (fst q), tdm_new_evt j)
+                        | None => Err RuntimeError end)
+      (fun q' q => fst q' = fst q /\ exists d, snd q' = Z.of_nat d /\ nth_error p d = Some (snd q))
+      t1) as (t2 & Et2 & Ft2).
+    { intros q Hq. destruct (Rg1 q Hq) as (_ & R2). fold ev1 in R2.
+      assert (Hin : In (snd q) p) by (apply Pin; lia).
+      apply In_nth_error in Hin as (d & Hd).
+      rewrite take_wrap_rng by (rewrite Linv, Plen; assumption).
+      rewrite (P1 d _ Hd). cbn [bind]. rewrite (proj1 (K_tdm_src_keep _)), K_tdm_new_evt.
+      eexists. split; [reflexivity|]. cbn [fst snd]. split; [reflexivity|]. exists d. split; [lia|assumption]. }
+    set (orig2 := map (fun z => nth (Z.to_nat z) o1 0) p).
+    exists r1, ev2, t2, orig2. split; [exact E1|]. split.
+    { unfold tdm_init. rewrite E1. cbn [bind]. fold ev1 t1 p. rewrite Eev2. cbn [bind].
+      rewrite Einv. cbn [bind]. rewrite Et2. reflexivity. }
+    split.
+    { rewrite <- Ho1. unfold orig2.
+      apply Permutation_trans
+        with (map (fun z => nth (Z.to_nat z) o1 0) (map Z.of_nat (seq 0 (length ev1)))).
+      - apply Permutation_map, argsort_perm.
+      - rewrite map_map. erewrite map_ext; [|intros b; rewrite Nat2Z.id; reflexivity].
+        rewrite L1, map_nth_id. apply Permutation_refl. }
+    assert (Ho2 : forall b z, nth_error p b = Some z ->
+                  nth_error orig2 b = Some (nth (Z.to_nat z) o1 0)
+                  /\ nth_error o1 (Z.to_nat z) = Some (nth (Z.to_nat z) o1 0)).
+    { intros b z Hz. split; [unfold orig2; exact (map_nth_error (fun z => nth (Z.to_nat z) o1 0) b p Hz)|].
+      apply nth_error_nth'. apply nth_error_In, Pin in Hz. lia. }
+    split.
+    { unfold orig2. apply F2_map_r2. eapply F2_impl; [|exact Fev2]. cbn beta. intros e z He.
+      assert (Hz : Z.to_nat z < length o1) by (rewrite <- L1; apply nth_error_Some; congruence).
+      destruct (F2_nth _ _ _ _ _ F1 (nth_error_nth' o1 0 Hz)) as (e' & He1 & He'). congruence. }
+    split; [exact Fev2|]. split.
+    { change (map fst t2 = map fst t1). revert Ft2. generalize t1, t2. intros l' l F.
+      induction F as [|q' q l l' (H & _) F IH]; [reflexivity|]. cbn [map]. now rewrite H, IH. }
+    split.
+    { apply (F2_NoDup _ _ _ Ft2).
+      - intros q' q1 q2 (Hf1 & d1 & Hd1 & Hp1) (Hf2 & d2 & Hd2 & Hp2).
+        assert (d1 = d2) by lia. subst d2. destruct q1, q2; cbn [fst snd] in *. congruence.
+      - revert T1. generalize t1. intros l T1. induction T1 as [|a l Sd IH Fa]; constructor; [|assumption].
+        intros Ha. rewrite Forall_forall in Fa. apply (lexlt_irr a). now apply Fa. }
+    split.
+    { intros q' Hq'. destruct (F2_In_l _ _ _ _ Ft2 Hq') as (q & Hq & Hf & d & Hd & Hpd).
+      destruct (Rg1 q Hq) as (R1 & _). rewrite Hf. split; [assumption|].
+      assert (d < length p) by (apply nth_error_Some; congruence). lia. }
+    intros k b. split.
+    - intros Hin. destruct (F2_In_l _ _ _ _ Ft2 Hin) as ((zk, zb) & Hq & Hf & d & Hd & Hpd).
+      cbn [fst snd] in Hf, Hd, Hpd. apply Nat2Z.inj in Hd. subst d zk.
+      destruct (Rg1 _ Hq) as (_ & R2). cbn [snd] in R2.
+      rewrite <- (Z2Nat.id zb) in Hq by lia. apply In1 in Hq as (Hk & j & Hj & Hc).
+      split; [assumption|]. exists j. destruct (Ho2 b zb Hpd) as (H1 & H2). split; [congruence|assumption].
+    - intros (Hk & j & Hj & Hc).
+      assert (Hb : b < length p).
+      { unfold orig2 in Hj. rewrite <- (map_length (fun z => nth (Z.to_nat z) o1 0)). apply nth_error_Some. congruence. }
+      destruct (nth_error p b) as [zb|] eqn:Hpb; [|apply nth_error_None in Hpb; lia].
+      destruct (Ho2 b zb Hpb) as (H1 & H2).
+      assert (Hzb : (0 <= zb < Z.of_nat (length ev1))%Z) by (apply Pin; eapply nth_error_In; eassumption).
+      assert (Hq : In (Z.of_nat k, Z.of_nat (Z.to_nat zb)) t1).
+      { apply In1. split; [assumption|]. exists j. split; [congruence|assumption]. }
+      rewrite Z2Nat.id in Hq by lia.
+      destruct (F2_In_r _ _ _ _ Ft2 Hq) as ((zk', zb') & Hq' & Hf & d & Hd & Hpd).
+      cbn [fst snd] in Hf, Hd, Hpd. subst zk' zb'.
+      assert (d = b) by (apply (proj1 (NoDup_nth_error p) Pnd); [apply nth_error_Some; congruence|congruence]).
+      now subst d.
+  Qed.
+
+  (* without an index field the selection result is stored unchanged; without a
+     selection every event is paired with every source *)
+  Lemma tdm_nosort (m : meth S E) (evs : list E) :
+    tdm_init argsort (Some m) srcs evs false
+    = do r <- run m srcs evs None; Ok (s_events r, s_tbl r).
+  Proof. unfold tdm_init. destruct (run m srcs evs None); reflexivity. Qed.
+
+  Lemma tdm_nosel (evs : list E) (index_field : bool) :
+    exists ev2, tdm_init argsort None srcs evs index_field = Ok (ev2, full_tbl ns (length ev2))
+      /\ tbl_ok ns (length ev2) (full_tbl ns (length ev2))
+      /\ (if index_field
+          then Forall2 (fun e z => nth_error evs (Z.to_nat z) = Some e) ev2 (argsort evs)
+          else ev2 = evs).
+  Proof.
+    destruct index_field.
+    - destruct (sorted_events evs) as (ev2 & E2 & F2). exists ev2. unfold tdm_init. cbn [bind].
+      rewrite E2. cbn [bind]. split; [reflexivity|]. split; [now apply full_tbl_ok|exact F2].
+    - exists evs. split; [reflexivity|]. split; [now apply full_tbl_ok|reflexivity].
+  Qed.
+End TDM.
